@@ -66,21 +66,27 @@ def unresume (a : AState) (o : Obs) : AState :=
 /-- Is the model step `s --ev/o--> s'` allowed by Go's channel semantics?  `none` = allowed,
     `some msg` = what Go demands instead. Steps that do not touch channels (spawn, exit, scheduler) are
     checked for leaving every channel and every other goroutine's abstract state alone. -/
+def closeVerdict (a : AState) (c : Nat) (panics : Bool) (a' : AState) : Option String :=
+  let ch := chan a c
+  if ch.isNil then (if panics then none else some "close-nil-must-panic")
+  else if ch.closed then (if panics then none else some "close-closed-must-panic")
+  else if panics then some "close-open-must-not-panic"
+  else if allowed a 0 (.close c false) a' then none else some "close-wakeups-not-allowed"
+
 def verdict (s : State) (ev : Event) (o : Obs) (s' : State) : Option String :=
   let a := abs s
   let a' := abs s'
   if o == .invalid then none else
   match s.cur, ev with
-  | some g, .send .. | some g, .recv .. | some g, .select .. | some g, .close .. =>
+  | some _, .close c => closeVerdict a c (o != .ok) a'
+  | some g, .send .. | some g, .recv .. | some g, .select .. =>
     match label ev o with
     | some l => if allowed a g l a' then none else some "chan-op-not-allowed"
     | none => some "no-label"
   | none, .fire id =>
     match findTimer s.timers id with
-    | some (.closeChan c) =>
-      let l := Label.close c (match o with | .panic _ => true | _ => false)
-      if allowed a 0 l (unresume a' o) then none else some "timer-close-not-allowed"
-    | _ => if unresume a' o == a || a'.chans == a.chans then none else some "scheduler-changed-channels"
+    | some (.closeChan c) => closeVerdict a c (match o with | .panic _ => true | _ => false) (unresume a' o)
+    | _ => if a'.chans == a.chans then none else some "scheduler-changed-channels"
   | _, _ => if a'.chans.take a.chans.length == a.chans then none else some "non-channel-event-changed-channels"
 
 /-- the runtime must report a deadlock exactly when, after a goroutine went to sleep or exited, main has not
